@@ -282,7 +282,10 @@ Print Assumptions C19_regret_run_transcription.
 
 (* THE RUN WITH THE REAL FACTORS.  trs = [(t_0, r_0); (t_1, r_1); ...]: the epochs at which one
    action of one information set is updated (strictly increasing, t_0 >= 0) and the regrets fed in;
-   concrete_pairs trs = [(regret_factor t_0 r_0, r_0); ...] is what Memory::add_regret receives.
+   concrete_pairs trs = [(regret_factor t_0 r_0, r_0); ...] is what Memory::add_regret receives when the information set is
+   updated at strictly increasing epochs (the API-level reading of the property; Blueprint::solve updates a bucket
+   once per tree of a batch at the SAME epoch: for t >= 1 a repeated epoch keeps every factor in (0,1], at t = 0 each
+   repeated update wipes the earlier ones).
    C19_regret_weights with its hypothesis about the factors discharged: *)
 Theorem C19_regret_weights_concrete : forall trs : list (Z * R), increasing_from 0 trs ->
   let drs := concrete_pairs trs in
